@@ -1494,7 +1494,7 @@ class BinaryQuadraticModel(QuadraticViewsMixin):
             # from 2.0.0 to 3.0.0 the formatting of the bytes changed
             raise ValueError("No longer supported serialization format")
 
-        variables = [tuple(v) if isinstance(v, list) else v for v in obj["variable_labels"]]
+        variables = list(iter_deserialize_variables(obj["variable_labels"]))
 
         if obj["use_bytes"]:
             bias_dtype = np.dtype(obj['bias_type'])
